@@ -174,12 +174,16 @@ impl<'a> BlockFilterHashesProcess<'a> {
             // Update cached block filter hashes.
             let start_index = cached_hashes[index_offset..].len();
             let mut new_cached_hashes = cached_hashes;
-            if end_number > next_cached_check_point_number {
+            // If the message contains less hashes than the cached, there is nothing new.
+            let new_hashes_opt = if end_number > next_cached_check_point_number {
                 let excess_size = (end_number - next_cached_check_point_number) as usize;
                 let new_size = block_filter_hashes.len() - excess_size;
-                new_cached_hashes.extend_from_slice(&block_filter_hashes[start_index..new_size]);
+                block_filter_hashes.get(start_index..new_size)
             } else {
-                new_cached_hashes.extend_from_slice(&block_filter_hashes[start_index..]);
+                block_filter_hashes.get(start_index..)
+            };
+            if let Some(new_hashes) = new_hashes_opt {
+                new_cached_hashes.extend_from_slice(new_hashes);
             }
             self.protocol
                 .peers
